@@ -37,7 +37,8 @@ func isBroadcastConstruct(construct string) bool {
 	return strings.Contains(construct, "gradtrack.Broadcast→") || strings.HasSuffix(construct, ".Broadcast")
 }
 
-var gradRules = []string{"A1.backward", "A2.vjp", "A3.finite", "S1c.edges", "S1b.operands"}
+// C08.state belongs here too: a result that is untracked although an operand is tracked gives that operand no gradient
+var gradRules = []string{"A1.backward", "A2.vjp", "A3.finite", "S1c.edges", "S1b.operands", "C08.state"}
 
 func isGradRule(rule string) bool {
 	for _, r := range gradRules {
@@ -157,6 +158,7 @@ func init() {
 		c.R.NotDecide("DAGs outside the enumerated templates (the structural rules S2a-d hold for all graphs; value equality is established per template)")
 		c.R.NotDecide("operations other than Scale/Exp/Add/Mul inside the templates (their local rules are C02)")
 		statelessPremise(c, false)
+		unitTolerance(c)
 		addOpsAssumptions(c)
 	})
 	register("C08", "tracking propagates, isolates and retires as specified", func(c *Ctx) {
@@ -271,8 +273,13 @@ func statelessPremise(c *Ctx, components bool) {
 	// classify is a note, a construct they classify as a violation is a violation
 	c.R.PremiseMode = true
 	c.R.PremiseKeep = func(rule, what, detail string) bool {
-		// writes to package-level state do not depend on the alias analysis of parameters
-		return rule == "S4.write" && strings.Contains(detail, "package variable")
+		// writes to package-level state do not depend on the alias analysis of parameters; a caller's slice kept
+		// as a tensor's own dims / index (the direct store into a CPUTensor field or a backward closure of the
+		// tensor packages) is the plain pattern of S5
+		if rule == "S4.write" && strings.Contains(detail, "package variable") {
+			return true
+		}
+		return rule == "S5.retain" && (strings.Contains(detail, "cputensor.CPUTensor") || strings.Contains(detail, "gradtrack."))
 	}
 	rules.S4Provenance(c.P, c.A, c.R)
 	rules.S5Retention(c.P, c.A, c.R)
@@ -428,7 +435,9 @@ func isShapeRule(rule string) bool {
 }
 
 func dataKeep(rule, construct string) bool {
-	return rule == "D.elements" || rule == "S6.panic" || rule == "S6.hang" || rule == "A4.pre" || rule == "A4.shape"
+	// C10.mutation: the store observer saw an interpreted run write a cell that existed before the call (an operand's
+	// rows, a caller's slice): later values of that operand are then wrong - a value defect, decided on an actual run
+	return rule == "D.elements" || rule == "S6.panic" || rule == "S6.hang" || rule == "A4.pre" || rule == "A4.shape" || rule == "C10.mutation"
 }
 
 const dataRule = "D.elements: labelled-element interpretation — shapes concrete and small (sizes 1..3, ranks to the tier bound plus a few rank-4/5 shapes), every operand element a distinct symbol; the WHOLE implementation incl. the nested-[]any data layer (recursive fills, element generators, copiers, kernels) is interpreted and the element found at every result position must have the normal form of the specification's element at that position. Universal in element values, bounded in shapes"
